@@ -282,6 +282,8 @@ func BuildGenesis(spec GenSpec, r *rand.Rand) (*types.AppState, *World) {
 	pAT := newPool(CoinA, TokT, Bip(int64(10000+r.Intn(90000))), Bip(int64(10000+r.Intn(90000))), u(7).Addr)
 	newPool(TokT, TokU, Bip(int64(10000+r.Intn(90000))), Bip(int64(10000+r.Intn(90000))), u(8).Addr)
 	newPool(0, TokU, Bip(int64(100000+r.Intn(90000))), Bip(int64(10000+r.Intn(90000))), u(9).Addr)
+	// a burnable/mintable token that can pay fees through its own BIP pool
+	newPool(0, TokT, Bip(int64(100000+r.Intn(90000))), Bip(int64(10000+r.Intn(90000))), u(10).Addr)
 
 	// orders around the pool price on both sides
 	addOrders := func(p *types.Pool, n int) {
